@@ -54,6 +54,26 @@ impl Prop for P {
             let ty = if rng.chance(1, 6) { rng.next() } else { 0 };
             cases.push(build_case("extend", "all", ty, 10_000, 2, &map_ops(&with_values(&ks, &vals))));
         }
+        // key sets large enough that node-cache buckets overflow: front ends that silently used a different
+        // cache geometry (or hash) would then emit different bytes
+        let big: &[(&str, usize)] = if tier == Tier::Quick { &[("words-10000", 2500), ("wiki-urls-10000", 800)] } else { &[("words-10000", 10_000), ("wiki-urls-10000", 4000)] };
+        for (f, n) in big {
+            let ks = corpus(f, *n);
+            if ks.is_empty() {
+                continue;
+            }
+            cases.push(build_case("extend", "all", 0, 10_000, 2, &set_ops(&ks)));
+            let vals = value_pattern(6, ks.len(), rng);
+            cases.push(build_case("extend", "all", 0, 10_000, 2, &map_ops(&with_values(&ks, &vals))));
+            stats.bump("corpus_keysets");
+        }
+        // many distinct nodes from generated keys (about 20 nodes per key)
+        for n in [400usize, 1500] {
+            let ks = sort_dedup((0..n).map(|i| format!("{:04}-{:x}-{}", i, (i as u64).wrapping_mul(0x9E3779B97F4A7C15) >> 40, "z".repeat(i % 7)).into_bytes()).collect());
+            let vals = value_pattern(6, ks.len(), rng);
+            cases.push(build_case("extend", "all", 0, 10_000, 2, &map_ops(&with_values(&ks, &vals))));
+            stats.bump("generated_many_nodes");
+        }
         cases
     }
     fn nontrivial(&self, case: &str) -> bool {
